@@ -8,7 +8,8 @@ RULE = ("pairs/triples of values over an atom pool containing every number repre
         "comparison operators, object lookup/merge/equality, array subtraction, sort/unique/group_by/index on the "
         "implementation and on the model; oracle = order axioms and key interchangeability on the implementation alone; "
         "non-trivial = distinct output")
-PARTIAL = ["val-level total preorder incl. objects and mixed int/float comparison: correspondence + oracle only (theorems cover floats and integers)"]
+PARTIAL = ["mixed int/float comparison for integers between 4096 and 2^53 and key interchangeability beyond numbers: correspondence + oracle only "
+           "(theorems: total preorder of nested values lifted from any class of numbers on which num_cmp is one; integers, NaN-free floats, small mixed)"]
 ASSUMPTIONS = ["NaN-free values; integers beyond 2^53 compared only with integers or infinities (the property's domain) for the oracle"]
 
 P1 = "[$a<$b,$a<=$b,$a==$b,$a!=$b,$a>$b,$a>=$b]"
